@@ -116,6 +116,9 @@ func sweeps(r *hk.Run) {
 						r.Res.Histogram["sweep:"+which+":max-lower-layer-calls:"+sc] = n
 					}
 				}
+			case "bursts":
+				n, _ := strconv.Atoi(v)
+				r.Res.Histogram["sweep:"+which+":two-fault-bursts"] += n
 			case "not-reached":
 				n, _ := strconv.Atoi(v)
 				r.Res.Histogram["sweep:"+which+":fault-not-reached"] += n
@@ -162,7 +165,7 @@ func sweepSignature(which, v string) string {
 	check = digitsRe.ReplaceAllString(check, "")
 	// F-C13-9: the index batch of a (single or multi-blob) RemoveBlobs fails after every blob of the call
 	// was wiped: the rows survive and serve zeros
-	if which == "diskpacked" && strings.HasPrefix(sc, "rm") && call == "CommitBatch-b" && check == "blob-fetched-as-zeros" {
+	if which == "diskpacked" && strings.HasPrefix(sc, "rm") && strings.Contains(call, "CommitBatch-b") && check == "blob-fetched-as-zeros" {
 		return "diskpacked-failed-remove-serves-zeros"
 	}
 	// F-C13-3: replica's best-effort remove acknowledged although one replica's removal failed
